@@ -377,15 +377,20 @@ def h_select(ctx, cfg):
 
 def h_seedarg(ctx, cfg):
     ap = ctx.mod("batchie.cli.argument_parsing")
-    seed = ctx.int("seed", 0)
+    seed = ctx.int("seed", 0, 5)  # (bounded: a memoising implementation hashes the seed, which enumerates its values)
     with _Streams(ctx) as st:
         g1 = ap.get_prng_from_seed_argument(argparse.Namespace(seed=seed))
+        fresh_state = g1.bit_generator.state if ctx.mode == "real" else None
+        g1.normal()  # the first generator is used before the second request for the same seed
         g2 = ap.get_prng_from_seed_argument(argparse.Namespace(seed=seed))
     if ctx.mode == "real":
-        ctx.prove(g1.bit_generator.state == g2.bit_generator.state, "--seed determines the generator")
+        ctx.prove(g2.bit_generator.state == fresh_state, "--seed determines the generator: every request gets a fresh generator of that seed",
+                  key="--seed: generator shared between requests")
     else:
         ctx.prove(g1.stream == "seeded" and g1.token == g2.token and g1.token[0] == "seed" and g1.token[1][0] == "state"
                   and ctx.is_true(g1.token[1][1] == seed), "--seed determines the generator")
+        ctx.prove(g2 is not g1 and g2.count == 0, "--seed determines the generator: every request gets a fresh generator of that seed",
+                  key="--seed: generator shared between requests")
     return _judge(ctx, st, "get_prng_from_seed_argument")
 
 
